@@ -2,6 +2,7 @@
 CONSTANTS
   MaxBody = 2
   QuoteAll = TRUE
+  EmptyParam = FALSE
   AllMethods = TRUE
   KF_TrailingSlash = TRUE
   Source = "picks"
